@@ -194,7 +194,11 @@ func (tr TranslationConfig) translatePackage(pkg *packages.Package) (coq.File, e
 			"could not load package %v:\n%v", pkg.PkgPath,
 			pkgErrors(pkg.Errors))
 	}
-	ctx := NewPkgCtx(pkg, tr)
+	ffi, err := getFfi(pkg)
+	if err != nil {
+		return coq.File{}, err
+	}
+	ctx := newPkgCtx(pkg, tr, ffi)
 	files := sortedFiles(pkg.CompiledGoFiles, pkg.Syntax)
 
 	coqFile := coq.File{
